@@ -271,7 +271,7 @@ def run(ctx):
                 if isinstance(node, ast.Attribute) and node.attr in mark_vals: return mark_vals[node.attr]
                 if isinstance(node, ast.Compare) and norm(node).replace(' ', '').startswith('len(clause.values)'): return eval('1' + norm(node).replace(' ', '')[len('len(clause.values)'):], {})
                 return None
-            eos = scenario_edges(gs, sf.node, atom_s, resolve=False)
+            eos = scenario_edges(gs, sf.node, atom_s, resolve=True)
             lives = gs.reach([gs.entry], edge_ok=eos)
             res = [x for x in gs.nodes if x.id in lives and x.kind == 'stmt' and isinstance(x.ast, ast.Assign) and any(dotted(t_) == 'result' for t_ in x.ast.targets)]
             ctx.need(len(res) == 1, 'C03-POLARITY: simplify() not interpretable for a one-item %s clause (%d reachable results)' % (ctype, len(res)))
@@ -324,7 +324,7 @@ def run(ctx):
                 if isinstance(node, ast.Attribute) and node.attr in mark_vals: return mark_vals[node.attr]
                 if isinstance(node, ast.Compare) and norm(node).replace(' ', '').startswith('len(clause.values)'): return eval('1' + norm(node).replace(' ', '')[len('len(clause.values)'):], {})
                 return None
-            lives = gs.reach([gs.entry], edge_ok=scenario_edges(gs, sf.node, atom_s2, resolve=False))
+            lives = gs.reach([gs.entry], edge_ok=scenario_edges(gs, sf.node, atom_s2, resolve=True))
             res = [x for x in gs.nodes if x.id in lives and x.kind == 'stmt' and isinstance(x.ast, ast.Assign) and any(dotted(t_) == 'result' for t_ in x.ast.targets)]
             ctx.need(len(res) == 1, 'C03-POLARITY: simplify() not interpretable for a one-item %s clause' % ctype)
             value_is_J = item_is_J != is_not_node(res[0].ast.value)
